@@ -55,3 +55,7 @@ chk("C12","exploration",
  "250 context ids x shard counts 1..8 x {clean, kill} restart: one STORE per context in each of two process lifetimes with different hash seeds, then scoped QUERY/REPLAY per context, one unscoped QUERY and the WAL directories on disk; shard tags of event ids must be constant per context, below the shard count, agree with the WAL directory, scoped reads complete, the unscoped read the union",
  "shard tag = bits 12..22 of the event id",
  "bounded exhaustive input x configuration enumeration against the routing invariants","unitx+histx","DESIGN.md §3 C12")
+chk("C20","exploration",
+ "every command of a result-shape alphabet is answered by the same storage state through the JSON, Arrow and text renderers (real response writer); the three byte streams are decoded independently (serde_json, arrow_ipc, a line parser) and compared: status, column names, row count, every cell, announced row count; over layouts and response batch sizes",
+ "only results the engine itself produces (no hand-built column batches); exact-case known findings in known/C20.*.json",
+ "bounded exhaustive enumeration of result shapes with a three-way differential oracle over independent decoders","unitx+histx","DESIGN.md §3 C20")
